@@ -210,6 +210,9 @@ class Sym:
         args = tuple(self.operand(a) for a in t["args"])
         if callee in DEREF_CALLEES and args:
             return ref(deref(deref(args[0])))
+        if callee and len(args) == 2 and callee.endswith(("cmp::Ord::max", "cmp::Ord::min")):
+            # `a.max(b)` / `Ord::max(a, b)` is what `std::cmp::max(a, b)` is defined as: one name for both spellings
+            callee = "std::cmp::max" if callee.endswith("max") else "std::cmp::min"
         return ("call", callee or "?", args, bi)
 
     def rvalue(self, rv):
